@@ -13,4 +13,5 @@ ROLL_PLAN = {
         "thorough": [("MC_Rolling", "Beh_Rolling_q.cfg", fam_roll.convert, 0), ("MC_Rolling", "Beh_Rolling_t.cfg", fam_roll.convert, 6000)],
     },
     "drift": fam_roll.drift,
+    "drift_fam": "roll",
 }
